@@ -239,6 +239,42 @@ pub fn layouts_display<T: Display>(x: &T, widths: &[Option<usize>]) -> Vec<(Spec
     out
 }
 
+macro_rules! lean {
+    ($out:ident, $x:expr, $w:expr, $ty:literal) => {
+        lay!(@z $out, $x, $w, $ty, "", "", ""; "");
+        lay!(@z $out, $x, $w, $ty, "<", "", ""; "");
+        lay!(@z $out, $x, $w, $ty, "*^", "+", ""; "");
+        lay!(@z $out, $x, $w, $ty, ">", "", "#"; "");
+        lay!(@z $out, $x, $w, $ty, "", "+", ""; "0");
+        lay!(@z $out, $x, $w, $ty, "", "", "#"; "0");
+    };
+}
+
+/// six representative flag combinations (plain, left, starred centre with +, right with #, +0, #0)
+/// for values whose rendering is too long for the full 56-combination table
+pub fn layouts_lean_display<T: Display>(x: &T, widths: &[Option<usize>]) -> Vec<(Spec, String)> {
+    let mut out = Vec::with_capacity(6 * widths.len());
+    for &w in widths {
+        lean!(out, x, w, "");
+    }
+    out
+}
+
+/// the lean table for one of the radix traits ("" Display, "b", "o", "x", "X")
+pub fn layouts_lean_trait<T: Display + Binary + Octal + LowerHex + UpperHex>(x: &T, widths: &[Option<usize>], ty: &str) -> Vec<(Spec, String)> {
+    let mut out = Vec::with_capacity(6 * widths.len());
+    for &w in widths {
+        match ty {
+            "" => { lean!(out, x, w, ""); }
+            "b" => { lean!(out, x, w, "b"); }
+            "o" => { lean!(out, x, w, "o"); }
+            "x" => { lean!(out, x, w, "x"); }
+            _ => { lean!(out, x, w, "X"); }
+        }
+    }
+    out
+}
+
 /// ... for Display, Binary, Octal, LowerHex, UpperHex
 pub fn layouts_all<T: Display + Binary + Octal + LowerHex + UpperHex>(x: &T, widths: &[Option<usize>]) -> Vec<(Spec, String)> {
     let mut out = Vec::with_capacity(280 * widths.len());
